@@ -335,12 +335,25 @@ class Engine:
         return None
 
     def model_summary(self, ctx, model):
-        if self.model_hook:
-            try:
-                return self.model_hook(ctx, model)
-            except Exception as e:  # model extraction is best effort
-                return {"error": repr(e)}
-        return {}
+        """The values the solver's counter-model gives to the symbolic inputs (best effort)."""
+        out = {}
+        try:
+            for d in model.decls():
+                if d.arity() != 0:
+                    continue
+                n = d.name()
+                if "!" in n and n.split("!")[-1].isdigit():
+                    continue     # fresh engine symbols
+                v = model[d]
+                if z3.is_string_value(v):
+                    out[n] = v.as_string()
+                elif z3.is_int_value(v):
+                    out[n] = v.as_long()
+                elif z3.is_true(v) or z3.is_false(v):
+                    out[n] = z3.is_true(v)
+        except Exception as e:
+            out["error"] = repr(e)
+        return out
 
     # ---- exploring all paths of a job -------------------------------------------------------
     def explore(self, job, name, max_paths=4000):
